@@ -98,7 +98,9 @@ def define(deco, kind, name, params, recv_param, recv_expr, wrap, sig):
 
 def module_src(deco, sig, kind):
     params = SIGS[sig]
-    src = "def _mad(fn):\n    def wrapper(*a, **k):\n        return fn.asynq(*a, **k)\n    return make_async_decorator(fn, wrapper, 'mad')\n\n"
+    # (decorators that key a table by the receiver legitimately treat equal receivers as one: identity equality there)
+    src = "EQUAL_INSTANCES = %r\n\n" % (deco not in ("alru", "per_instance", "dedupe"))
+    src += "def _mad(fn):\n    def wrapper(*a, **k):\n        return fn.asynq(*a, **k)\n    return make_async_decorator(fn, wrapper, 'mad')\n\n"
     src += "def _mad_pure(fn):\n    def wrapper(*a, **k):\n        return fn(*a, **k)\n    return make_async_decorator(fn, wrapper, 'mad_pure')\n\n"
     src += "@asynq()\ndef child(x):\n    return ['child', x]\n\n"
     for k in BODIES:
@@ -109,7 +111,7 @@ def module_src(deco, sig, kind):
                 "raise_base": "    raise BoomBase(['async', recv, x, y, z])\n"}[k] + "\n"
     if not (deco == "per_instance"):
         src += define(deco, kind, "f", params, "", "None", "", sig) + "\n"
-    src += "class Base(object):\n    def __init__(self, nm, truthy=True):\n        self.nm = nm\n        self.truthy = truthy\n\n    def __bool__(self):\n        return self.truthy\n\n"
+    src += "class Base(object):\n    def __init__(self, nm, truthy=True):\n        self.nm = nm\n        self.truthy = truthy\n\n    def __bool__(self):\n        return self.truthy\n\n    def __eq__(self, other):\n        return self is other or (EQUAL_INSTANCES and type(other) is type(self))      # value objects: every instance of the class compares equal\n\n    def __hash__(self):\n        return 7\n\n"
     src += define(deco, kind, "m", params, "self", "self.nm", "method", sig) + "\n"
     if deco not in FUNCTION_STYLE:
         src += define(deco, kind, "cm", params, "cls", "cls.__name__", "classmethod", sig) + "\n"
@@ -198,9 +200,11 @@ def check(case, ctx):
         other = ns["Base"]("i0") if binding != "subclass" else ns["Sub"]("s0")
         if deco == "pure":
             outcome(lambda: other.m(1).value())
+            outcome(lambda: async_call(other.m, 1))
         else:
             outcome(lambda: other.m(1))
             outcome(lambda: other.m.asynq(1).value())
+            outcome(lambda: async_call(other.m, 1))
         outcome(lambda: ns["Base"].m)
     pre = []
     if binding == "function":
